@@ -411,4 +411,19 @@ func TestUseCaseConcurrentPairs(t *testing.T) {
 			})
 		}
 	}
+	// the very first use case operations on a fresh device, at the same moment on different entities
+	// (nothing is set up sequentially before: whatever the stack creates lazily is created under contention)
+	fresh := workload{Lists: make([][]op, 3)}
+	for e := 0; e < 3; e++ {
+		fresh.Lists[e] = []op{{Kind: opAdd, Ent: e, Actor: e % 2, Name: e, Version: "1.0.0", SubRev: "release", Avail: true, Scen: []uint{1, 2}}}
+	}
+	xf := expect(fresh)
+	world.Record(world.Hash("pair", "fresh-device"), true, "pair/first-operations-on-a-fresh-device")
+	world.Guard(func() {
+		for r := 0; r < rounds*8; r++ {
+			obs := round(fresh)
+			world.AddExtra("pair_rounds", 1)
+			judge(t, fresh, xf, obs, fmt.Sprintf("first operations on a fresh device (add on three entities at once), round %d of %d", r+1, rounds*8))
+		}
+	})
 }
